@@ -112,6 +112,7 @@ impl Config {
     //  XXX Maybe that’s wrong and we should rather return an error?
     pub fn set_response_timeout(&mut self, timeout: Duration) {
         self.response_timeout = RESPONSE_TIMEOUT.limit(timeout);
+        self.single_response_timeout = self.response_timeout;
         self.streaming_response_timeout = self.response_timeout;
     }
 
